@@ -119,10 +119,6 @@ func init() {
 
 func runC10(r *ev.Run) {
 	var seqs, steps, twos, threes, uciRuns atomic.Int64
-	ti := 0
-	if r.Thorough() {
-		ti = 1
-	}
 	// one job per (root, first move) so that all cores are used
 	type job struct {
 		root  c10Root
@@ -134,79 +130,95 @@ func runC10(r *ev.Run) {
 			jobs = append(jobs, job{root, f})
 		}
 	}
-	ev.Parallel(len(jobs), func(worker, item int) {
-		j := jobs[item]
-		allowed := c10Allowed(j.root.alphabet)
-		rootPos := refchess.MustFEN(j.root.fen)
-		rootRaw := rootPos.Ep >= 0 && !rootPos.EPCapturable()
-		b := eng.Load(&rootPos)
-		keys := []refchess.Key{rootPos.Key()}
-		var path []string
-		var rec func(p *refchess.Pos, depth int)
-		rec = func(p *refchess.Pos, depth int) {
-			steps.Add(1)
-			want := c10Count(keys)
-			got := int(b.Threefold())
-			switch want {
-			case 2:
-				twos.Add(1)
-			case 3:
-				threes.Add(1)
-			}
-			if got != want {
-				cls := "count"
-				if rootRaw && keys[len(keys)-1] == keys[0] && got == want-1 {
-					cls = "count/root-fen-ep-not-capturable"
+	// iterative deepening: the quick depth is always completed; the thorough tier then keeps adding two plies
+	// to every root until the internal deadline, and reports the last offset that was completed
+	extra, completedExtra := 0, 0
+	for {
+		startSteps := steps.Load()
+		ev.Parallel(len(jobs), func(worker, item int) {
+			j := jobs[item]
+			allowed := c10Allowed(j.root.alphabet)
+			rootPos := refchess.MustFEN(j.root.fen)
+			rootRaw := rootPos.Ep >= 0 && !rootPos.EPCapturable()
+			b := eng.Load(&rootPos)
+			keys := []refchess.Key{rootPos.Key()}
+			var path []string
+			var rec func(p *refchess.Pos, depth int)
+			rec = func(p *refchess.Pos, depth int) {
+				steps.Add(1)
+				want := c10Count(keys)
+				got := int(b.Threefold())
+				switch want {
+				case 2:
+					twos.Add(1)
+				case 3:
+					threes.Add(1)
 				}
-				r.Fail(cls, c10Case{FEN: j.root.fen, Moves: append([]string(nil), path...), Via: "api"},
-					"%s %v: Threefold()=%d, true count %d", j.root.fen, path, got, want)
-			}
-			if depth == 0 || r.Expired() {
-				seqs.Add(1)
-				// the same history through `position fen .. moves ..` (every 16th leaf)
-				if seqs.Load()%16 == 0 {
-					uciRuns.Add(1)
-					if g := c10ViaUCI(j.root.fen, path); g != want {
-						cls := "uci/count"
-						if rootRaw && keys[len(keys)-1] == keys[0] && g == want-1 {
-							cls = "uci/count/root-fen-ep-not-capturable"
-						}
-						r.Fail(cls, c10Case{FEN: j.root.fen, Moves: append([]string(nil), path...), Via: "uci"},
-							"position fen %s moves %v: Threefold()=%d, true count %d", j.root.fen, path, g, want)
+				if got != want {
+					cls := "count"
+					if rootRaw && keys[len(keys)-1] == keys[0] && got == want-1 {
+						cls = "count/root-fen-ep-not-capturable"
 					}
+					r.Fail(cls, c10Case{FEN: j.root.fen, Moves: append([]string(nil), path...), Via: "api"},
+						"%s %v: Threefold()=%d, true count %d", j.root.fen, path, got, want)
 				}
-				return
-			}
-			var buf [256]refchess.Move
-			k := 0
-			for _, m := range p.LegalMoves(buf[:0]) {
-				if !allowed[m.String()] {
-					continue
+				if depth == 0 || r.Expired() {
+					seqs.Add(1)
+					// the same history through `position fen .. moves ..` (every 16th leaf)
+					if seqs.Load()%16 == 0 {
+						uciRuns.Add(1)
+						if g := c10ViaUCI(j.root.fen, path); g != want {
+							cls := "uci/count"
+							if rootRaw && keys[len(keys)-1] == keys[0] && g == want-1 {
+								cls = "uci/count/root-fen-ep-not-capturable"
+							}
+							r.Fail(cls, c10Case{FEN: j.root.fen, Moves: append([]string(nil), path...), Via: "uci"},
+								"position fen %s moves %v: Threefold()=%d, true count %d", j.root.fen, path, g, want)
+						}
+					}
+					return
 				}
-				if len(path) == 0 {
-					// top-level split
-					if k%8 != j.first {
-						k++
+				var buf [256]refchess.Move
+				k := 0
+				for _, m := range p.LegalMoves(buf[:0]) {
+					if !allowed[m.String()] {
 						continue
 					}
-					k++
+					if len(path) == 0 {
+						// top-level split
+						if k%8 != j.first {
+							k++
+							continue
+						}
+						k++
+					}
+					child := p.Make(m)
+					em := move.Move(m.Enc())
+					rv := b.MakeMove(em)
+					keys = append(keys, child.Key())
+					path = append(path, m.String())
+					rec(&child, depth-1)
+					path = path[:len(path)-1]
+					keys = keys[:len(keys)-1]
+					b.UndoMove(em, rv)
 				}
-				child := p.Make(m)
-				em := move.Move(m.Enc())
-				rv := b.MakeMove(em)
-				keys = append(keys, child.Key())
-				path = append(path, m.String())
-				rec(&child, depth-1)
-				path = path[:len(path)-1]
-				keys = keys[:len(keys)-1]
-				b.UndoMove(em, rv)
 			}
+			rec(&rootPos, j.root.depth[0]+extra)
+			if j.first == 0 {
+				r.Sample(map[string]any{"root": j.root.fen, "alphabet": j.root.alphabet, "depth": j.root.depth[0] + extra})
+			}
+		})
+		if r.WasCut() {
+			break
 		}
-		rec(&rootPos, j.root.depth[ti])
-		if j.first == 0 {
-			r.Sample(map[string]any{"root": j.root.fen, "alphabet": j.root.alphabet, "depth": j.root.depth[ti]})
+		completedExtra = extra
+		if !r.Thorough() || extra >= 10 || r.Remaining().Seconds() < 8*float64(steps.Load()-startSteps)/2.5e6 {
+			break
 		}
-	})
+		extra += 2
+	}
+	r.Set("depth_beyond_quick_completed", completedExtra)
+
 	// long histories: hundreds of plies of deterministic shuffling over the same alphabets (the position
 	// recurs many times; the half-move clock runs far beyond 100)
 	var longSteps atomic.Int64
